@@ -9,7 +9,7 @@ CFG = cfg('C20', refine=[], extract='Ex_C20', driver='c20',
                'model parser, checked with the RFC 4880 11.3 grammar and the 5.4 flag rule, one-pass / signature fields compared pairwise against an '
                'expectation computed from the property statement; import(export) attributes; model import state = PGPy import state. Foreign '
                'encodings written by the model (old-format 1/2/4-octet and indeterminate lengths, partial body lengths, nested compression) imported '
-               'by PGPy. Literal / one-pass body codecs incl. truncated and over-long bodies. Packet sequences outside the grammar (model __or__ vs '
+               'by PGPy. Literal / one-pass body codecs incl. truncated and over-long bodies; LiteralData.contents and strict UTF-8 decoding on valid, mutated and random octets. Packet sequences outside the grammar (model __or__ vs '
                'PGPy). distinct = distinct canonical (suite, case) that reached a non-error path in model and implementation',
           trusted=['Spec/Rfc4880_msg.v (RFC 4880 11.3 / 5.4 / 5.9 transcription)', 'zlib / bz2 (primitive oracle = the libraries PGPy calls)'],
           assumptions=['compression primitives: decompress a (compress a x) = Some x is a premise of the byte-level round trip (Section variable)',
@@ -18,17 +18,19 @@ CFG = cfg('C20', refine=[], extract='Ex_C20', driver='c20',
                        '`sig is self._signatures[0]`) reached only through the correspondence run',
                        'nothing of C20 is translated by py2coq; the tie is the correspondence run + pinned source text of PGPMessage.__iter__ / __bytearray__'])
 
-TEXT = ('Rocq theorems (Props/C20.v, 25 statements, closed under the global context): for every literal, compression algorithm and every list of '
+TEXT = ('Rocq theorems (Props/C20.v, 31 statements, closed under the global context): for every literal, compression algorithm and every list of '
         'signatures added in any order at any times the export is derivable from the RFC 4880 11.3 grammar (inductive transcription; the boolean checker '
         'used at run time is proved sound and complete for it); the i-th one-pass packet describes the (n-1-i)-th signature, their number equals the '
-        'number of signatures, only the last carries flag 1 and the RFC 5.4 flag rule holds on the whole export (old rule refuted); the compression '
-        'packet wraps the whole signed sequence (packet and octet level); encrypted messages are signatures* ESK+ one container for every history of '
-        'encrypt / sign steps; import(export) returns the same state (content, name, time, format, compression, signature list) at packet level and, '
-        'under the premise decompress(compress x) = x on the primitive, at octet level (parse(emit) for every well-formed nested packet sequence, fuel '
-        'sufficiency in the statement); literal / one-pass body codecs round-trip with following data untouched and agree with independent RFC 5.9 / 5.4 '
-        'decoders; partial-length and old-format framings decode to the same tag, length and body. Three defect classes are refuted with witnesses and '
-        'characterised: format t read back as latin-1, a five-octet time after 2106, the MDC packet re-exported by a decrypted message. '
-        'Tie: byte-for-byte correspondence of the extracted model with the real code on generated messages (export, import state, re-export, codecs, '
-        '__or__ on arbitrary packet sequences) + direct property oracles + pinned source text of PGPMessage.__iter__ / __bytearray__.',
+        'number of signatures, only the last carries flag 1 and the RFC 5.4 flag rule holds on the whole export; the compression packet wraps the whole '
+        'signed sequence (packet and octet level); encrypted messages are signatures* ESK+ one container for every history of encrypt / sign steps; '
+        'import(export) returns the same state (content, name, time, format, compression, signature list) at packet level and, under the premise '
+        'decompress(compress x) = x on the primitive, at octet level (parse(emit) for every well-formed nested packet sequence, fuel sufficiency in the '
+        'statement); literal / one-pass body codecs round-trip with following data untouched and agree with independent RFC 5.9 / 5.4 decoders; a time '
+        'that does not fit four octets is refused; text of format t / u reads back as the text that went in for every Unicode string (strict UTF-8 '
+        'decoder modelled and proved to invert the encoder), non-UTF-8 t data of other producers stays readable as latin-1; partial-length and '
+        'old-format framings are parsed to the same packet. The rules before the repairs (one-pass flags, five-octet time, latin-1 read-back) are '
+        'refuted with witnesses. Tie: byte-for-byte correspondence of the extracted model with the real code on generated messages (export, import '
+        'state, re-export, codecs, contents, __or__ on arbitrary packet sequences) + direct property oracles + regression witnesses of the five '
+        'repaired defects + pinned source text of PGPMessage.__iter__ / __bytearray__.',
         'DESIGN.md 5 C20',
         'machine-checked proof in Rocq (Coq 8.16.1) + extracted-model correspondence + direct property oracles')
